@@ -36,8 +36,10 @@
   falsifies C03_Beap_reevaluate_fixpoint / C03_Beap_minCost on the demo grammar below: see
   `demo_minCost` (the model's values) — the patched implementation leaves `m(X,Z)` at cost 19/4
   instead of 7/2 and is caught by the correspondence on the queues and by the order oracle.
-  THE ORDER OF THE YIELDED SEQUENCE (grammar flagged recursive, every non-terminal derives a program —
-  `Productive`, so that no placeholder is left after the prologue):
+  THE ORDER OF THE YIELDED SEQUENCE.  Hypotheses: `StableAfter E` (the state returned by the prologue is a
+  fixpoint of `_reevaluate_`: PROVED for every grammar flagged recursive, C03_Beap_stable_of_recursive, and for
+  acyclic grammars without re-evaluation, C03_Beap_stable_of_acyclic) and `Productive E` (every non-terminal
+  derives a program, so that no placeholder is left after the prologue):
     * C03_Beap_cost_inv        — COST SOUNDNESS as a state invariant of the query phase (`CInv`), for every
         history of next / merge_program calls after the first next: every queue element of rule P and
         combination c carries the cost  cost(P) + Σ_i _cost_lists[arg_i][c_i], every program of _bank[S][i] has
@@ -82,7 +84,7 @@ theorem C03_Beap_minCost (E : Env S) (hnd : RowsNodup E.G) (hrec : E.recursive =
     (hc : s'.clOf nt = c :: rest) :
     (∀ t k, costOf E t nt = some k → c.inf = 0 ∧ c.fin ≤ k) ∧
     (c.inf = 0 → ∃ t, gen E.G t nt = true ∧ costOf E t nt = some c.fin) :=
-  prologue_minCost E hnd hrec fuel s' h nt c rest hc
+  prologue_minCost E hnd (stableAfter_of_rec E hrec) fuel s' h nt c rest hc
 
 /-- **minimal costs at any fixpoint of `_reevaluate_`** (any flag; `Stable` is decidable) -/
 theorem C03_Beap_minCost_stable (E : Env S) (hnd : RowsNodup E.G) (fuel : Nat) (s' : St S)
@@ -122,6 +124,10 @@ end
 section
 variable {S : Type} [DecidableEq S]
 
+/-- the hypothesis `StableAfter` (the state returned by the prologue is a fixpoint of `_reevaluate_`) holds on
+    every grammar flagged recursive -/
+theorem C03_Beap_stable_of_recursive (E : Env S) (hrec : E.recursive = true) : StableAfter E := stableAfter_of_rec E hrec
+
 /-- the generator objects reachable after the first `next`, by any history of `next` / `merge_program` -/
 inductive ReachS (E : Env S) (fuel : Nat) : Gen S → Prop
   | first {r : Gen S × Option Prog} : Beap.next E fuel (Gen.new E.G) = some r → ReachS E fuel r.1
@@ -153,54 +159,54 @@ theorem reachS_started (E : Env S) (fuel : Nat) (g : Gen S) (h : ReachS E fuel g
   | @merge g other ok _ ih => exact ih
 
 /-- **COST SOUNDNESS as a state invariant**, for every history after the first `next` -/
-theorem C03_Beap_cost_inv (E : Env S) (hnd : RowsNodup E.G) (hrec : E.recursive = true) (hprod : Productive E) (fuel : Nat)
+theorem C03_Beap_cost_inv (E : Env S) (hnd : RowsNodup E.G) (hst : StableAfter E) (hprod : Productive E) (fuel : Nat)
     (g : Gen S) (h : ReachS E fuel g) : GC E g := by
   induction h with
-  | @first r hn => exact (next_cost E hnd hrec hprod fuel _ r (gc_new E) (fun _ => ⟨rfl, rfl⟩) hn).1
+  | @first r hn => exact (next_cost E hnd hst hprod fuel _ r (gc_new E) (fun _ => ⟨rfl, rfl⟩) hn).1
   | @next g r hr hn ih =>
-    have hst := reachS_started E fuel g hr
-    exact (next_cost E hnd hrec hprod fuel g r ih (fun hs => by rw [hst] at hs; cases hs) hn).1
+    have hstd := reachS_started E fuel g hr
+    exact (next_cost E hnd hst hprod fuel g r ih (fun hs => by rw [hstd] at hs; cases hs) hn).1
   | @merge g other ok _ ih => exact merge_cost E g other ok ih
 
 /-- every program of `_bank[S][i]` has cost `_cost_lists[S][i]`; every queue element is priced by its combination -/
-theorem C03_Beap_bank_cost (E : Env S) (hnd : RowsNodup E.G) (hrec : E.recursive = true) (hprod : Productive E) (fuel : Nat)
+theorem C03_Beap_bank_cost (E : Env S) (hnd : RowsNodup E.G) (hst : StableAfter E) (hprod : Productive E) (fuel : Nat)
     (g : Gen S) (h : ReachS E fuel g) :
     (∀ nt ci p, p ∈ g.st.bankAt nt ci → ∃ c, (g.st.clOf nt)[ci]? = some c ∧ c.inf = 0 ∧ costOf E p nt = some c.fin) ∧
     (∀ nt el, el ∈ g.st.queueOf nt → ∃ rl w k, E.G.rule? nt el.P = some rl ∧ ruleW E nt el.P = some w ∧
       combCost g.st rl.1 el.comb = some k ∧ el.cost = Cost.ofRat (w + k)) := by
-  have hc := (C03_Beap_cost_inv E hnd hrec hprod fuel g h).1
+  have hc := (C03_Beap_cost_inv E hnd hst hprod fuel g h).1
   refine ⟨fun nt ci p hp => ?_, hc.queue⟩
   obtain ⟨c, h1, h2⟩ := hc.bank nt ci p hp
   exact ⟨c, h1, hc.fin nt c (List.mem_of_getElem? h1), h2⟩
 
 /-- the program yielded while the generator's counter is `n` has cost `_cost_lists[start][n]`; `n` never decreases -/
-theorem C03_Beap_yield_cost (E : Env S) (hnd : RowsNodup E.G) (hrec : E.recursive = true) (hprod : Productive E) (fuel : Nat)
+theorem C03_Beap_yield_cost (E : Env S) (hnd : RowsNodup E.G) (hst : StableAfter E) (hprod : Productive E) (fuel : Nat)
     (g g' : Gen S) (p : Prog) (h : ReachS E fuel g) (hn : Beap.next E fuel g = some (g', some p)) :
     g.n ≤ g'.n ∧ ∃ c, (g'.st.clOf E.G.start)[g'.n]? = some c ∧ costOf E p E.G.start = some c.fin := by
-  have hst := reachS_started E fuel g h
-  obtain ⟨_, _, q3, q4⟩ := next_cost E hnd hrec hprod fuel g _ (C03_Beap_cost_inv E hnd hrec hprod fuel g h)
-    (fun hs => by rw [hst] at hs; cases hs) hn
-  exact ⟨q3 hst, (q4 p rfl).2⟩
+  have hstd := reachS_started E fuel g h
+  obtain ⟨_, _, q3, q4⟩ := next_cost E hnd hst hprod fuel g _ (C03_Beap_cost_inv E hnd hst hprod fuel g h)
+    (fun hs => by rw [hstd] at hs; cases hs) hn
+  exact ⟨q3 hstd, (q4 p rfl).2⟩
 
 /-- the programs produced by `take k` from the fresh generator are yielded at non-decreasing indices of
     the (final) cost list of the start symbol -/
-theorem C03_Beap_yield_index (E : Env S) (hnd : RowsNodup E.G) (hrec : E.recursive = true) (hprod : Productive E) (fuel k : Nat)
+theorem C03_Beap_yield_index (E : Env S) (hnd : RowsNodup E.G) (hst : StableAfter E) (hprod : Productive E) (fuel k : Nat)
     (g : Gen S) (ys : List Prog) (fin : Bool) (h : take E fuel k (Gen.new E.G) [] = some (g, ys, fin)) :
     ∃ idx : List Nat, idx.Pairwise (· ≤ ·) ∧
       All2 (fun p i => ∃ c, (g.st.clOf E.G.start)[i]? = some c ∧ costOf E p E.G.start = some c.fin) ys idx := by
-  obtain ⟨idx, h1, h2, _⟩ := take_index E hnd hrec hprod fuel k (Gen.new E.G) [] [] _ (gc_new E) (fun _ => ⟨rfl, rfl, rfl⟩)
+  obtain ⟨idx, h1, h2, _⟩ := take_index E hnd hst hprod fuel k (Gen.new E.G) [] [] _ (gc_new E) (fun _ => ⟨rfl, rfl, rfl⟩)
     All2.nil List.Pairwise.nil (fun i hi => by cases hi) h
   exact ⟨idx, h2, h1⟩
 
 /-- **ORDER, relative to a Boolean check on the final state**: if the final `_cost_lists[start]` is
     non-decreasing (`sortedB`), the costs of the programs produced by `take k` are non-decreasing, and every
     one of them has a cost (is derivable) -/
-theorem C03_Beap_order_partial (E : Env S) (hnd : RowsNodup E.G) (hrec : E.recursive = true) (hprod : Productive E) (fuel k : Nat)
+theorem C03_Beap_order_partial (E : Env S) (hnd : RowsNodup E.G) (hst : StableAfter E) (hprod : Productive E) (fuel k : Nat)
     (g : Gen S) (ys : List Prog) (fin : Bool) (h : take E fuel k (Gen.new E.G) [] = some (g, ys, fin))
     (hsorted : sortedB (g.st.clOf E.G.start) = true) :
     ys.Pairwise (fun p q => ∀ a b, costOf E p E.G.start = some a → costOf E q E.G.start = some b → a ≤ b) ∧
     ∀ p ∈ ys, ∃ a, costOf E p E.G.start = some a := by
-  obtain ⟨idx, h1, h2, _⟩ := take_index E hnd hrec hprod fuel k (Gen.new E.G) [] [] _ (gc_new E) (fun _ => ⟨rfl, rfl, rfl⟩)
+  obtain ⟨idx, h1, h2, _⟩ := take_index E hnd hst hprod fuel k (Gen.new E.G) [] [] _ (gc_new E) (fun _ => ⟨rfl, rfl, rfl⟩)
     All2.nil List.Pairwise.nil (fun i hi => by cases hi) h
   refine ⟨sorted_of_index E g.st (clSorted_of_check E g.st hsorted) ys idx h1 h2, fun p hp => ?_⟩
   obtain ⟨i, _, c, _, hc⟩ := sorted_of_index.mem_all2 h1 p hp
@@ -213,24 +219,24 @@ section
 variable {S : Type} [DecidableEq S]
 
 /-- **the order invariants, for every history after the first `next`** -/
-theorem C03_Beap_order_inv (E : Env S) (hnd : RowsNodup E.G) (hrec : E.recursive = true) (hprod : Productive E) (hpos : PosW E)
+theorem C03_Beap_order_inv (E : Env S) (hnd : RowsNodup E.G) (hst : StableAfter E) (hprod : Productive E) (hpos : PosW E)
     (fuel : Nat) (g : Gen S) (h : ReachS E fuel g) : GO E g := by
   induction h with
-  | @first r hn => exact next_order E hnd hrec hprod hpos fuel _ r (gc_new E) (go_new E) (fun _ => ⟨rfl, rfl⟩) hn
+  | @first r hn => exact next_order E hnd hst hprod hpos fuel _ r (gc_new E) (go_new E) (fun _ => ⟨rfl, rfl⟩) hn
   | @next g r hr hn ih =>
-    have hst := reachS_started E fuel g hr
-    exact next_order E hnd hrec hprod hpos fuel g r (C03_Beap_cost_inv E hnd hrec hprod fuel g hr) ih
-      (fun hs => by rw [hst] at hs; cases hs) hn
+    have hstd := reachS_started E fuel g hr
+    exact next_order E hnd hst hprod hpos fuel g r (C03_Beap_cost_inv E hnd hst hprod fuel g hr) ih
+      (fun hs => by rw [hstd] at hs; cases hs) hn
   | @merge g other ok _ ih => exact merge_order E g other ok ih
 
 /-- every cost list is strictly increasing; every queue element is at least as expensive as every entry of
     the cost list of its non-terminal; every queue is a heap -/
-theorem C03_Beap_costlists_increasing (E : Env S) (hnd : RowsNodup E.G) (hrec : E.recursive = true) (hprod : Productive E)
+theorem C03_Beap_costlists_increasing (E : Env S) (hnd : RowsNodup E.G) (hst : StableAfter E) (hprod : Productive E)
     (hpos : PosW E) (fuel : Nat) (g : Gen S) (h : ReachS E fuel g) (nt : NT S Unit) :
     (g.st.clOf nt).Pairwise (fun a b => a.fin < b.fin) ∧
     (∀ el c, el ∈ g.st.queueOf nt → c ∈ g.st.clOf nt → c.fin ≤ el.cost.fin) ∧
     Heapq.IsHeap ltE (g.st.queueOf nt) := by
-  have := (C03_Beap_order_inv E hnd hrec hprod hpos fuel g h).1
+  have := (C03_Beap_order_inv E hnd hst hprod hpos fuel g h).1
   exact ⟨this.mono nt, this.low nt, this.heap nt⟩
 
 theorem clSorted_of_oi (E : Env S) (s : St S) (h : OI s) : ClSorted E s := by
@@ -245,13 +251,13 @@ theorem clSorted_of_oi (E : Env S) (s : St S) (h : OI s) : ClSorted E s := by
 /-- **ORDER (full statement, positive rule costs)**: the costs of the programs produced by `take k` from the
     fresh generator are non-decreasing, for every fuel and every k; every yielded program has a cost
     (is derivable) -/
-theorem C03_Beap_order (E : Env S) (hnd : RowsNodup E.G) (hrec : E.recursive = true) (hprod : Productive E) (hpos : PosW E)
+theorem C03_Beap_order (E : Env S) (hnd : RowsNodup E.G) (hst : StableAfter E) (hprod : Productive E) (hpos : PosW E)
     (fuel k : Nat) (g : Gen S) (ys : List Prog) (fin : Bool) (h : take E fuel k (Gen.new E.G) [] = some (g, ys, fin)) :
     ys.Pairwise (fun p q => ∀ a b, costOf E p E.G.start = some a → costOf E q E.G.start = some b → a ≤ b) ∧
     ∀ p ∈ ys, ∃ a, costOf E p E.G.start = some a := by
-  obtain ⟨idx, h1, h2, _⟩ := take_index E hnd hrec hprod fuel k (Gen.new E.G) [] [] _ (gc_new E) (fun _ => ⟨rfl, rfl, rfl⟩)
+  obtain ⟨idx, h1, h2, _⟩ := take_index E hnd hst hprod fuel k (Gen.new E.G) [] [] _ (gc_new E) (fun _ => ⟨rfl, rfl, rfl⟩)
     All2.nil List.Pairwise.nil (fun i hi => by cases hi) h
-  have hgo := take_order E hnd hrec hprod hpos fuel k (Gen.new E.G) [] _ (gc_new E) (go_new E) (fun _ => ⟨rfl, rfl⟩) h
+  have hgo := take_order E hnd hst hprod hpos fuel k (Gen.new E.G) [] _ (gc_new E) (go_new E) (fun _ => ⟨rfl, rfl⟩) h
   refine ⟨sorted_of_index E g.st (clSorted_of_oi E g.st hgo.1) ys idx h1 h2, fun p hp => ?_⟩
   obtain ⟨i, _, c, _, hc⟩ := sorted_of_index.mem_all2 h1 p hp
   exact ⟨c.fin, hc⟩
@@ -334,7 +340,7 @@ open PS.C02Beap in
 /-- non-vacuity of C03_Beap_order: all hypotheses hold on the demo grammar -/
 example (fuel k : Nat) (g : Gen Nat) (ys : List Prog) (fin : Bool) (h : take demoE fuel k (Gen.new demoG) [] = some (g, ys, fin)) :
     ys.Pairwise (fun p q => ∀ a b, costOf demoE p demoG.start = some a → costOf demoE q demoG.start = some b → a ≤ b) :=
-  (C03_Beap_order demoE demo_rowsNodup rfl demo_productive demo_posW fuel k g ys fin h).1
+  (C03_Beap_order demoE demo_rowsNodup (stableAfter_of_rec demoE rfl) demo_productive demo_posW fuel k g ys fin h).1
 
 open PS.C02Beap in
 /-- non-vacuity of C03_Beap_order_partial: on the demo grammar the hypotheses hold for the first 12 programs
